@@ -89,6 +89,12 @@ def cases(tier, seed, ctx=None):
         for _ in range(rng.choice([1, 1, 2, 4])):
             conns.append([r, rng.choice([0, 1, len(r) // 2, len(r) - 3, len(r)]), rng.below(5)])
         yield ("life", [kind, conns, rng.below(2)], "loopback-k%d" % kind)
+    # the server side closes first, some time after everything was flushed, while the client just waits (a handler that closes later,
+    # a proxy whose upstream closes later): the connection's objects go when the close has run
+    for j in range(4 if tier == "quick" else 30):
+        r = b"GET /x HTTP/1.1\r\nHost: h\r\n\r\n"
+        conns = [[r, len(r), 2] for _ in range(rng.choice([1, 3, 5]))]
+        yield ("life", [4, conns, 0], "loopback-server-closes-later")
     # clients that keep sending after their request is complete (more than the socket buffers hold) and then go away, while the
     # server side has not answered yet (proxy with a silent upstream, slot still waiting) or has
     for j in range(8 if tier == "quick" else 60):
